@@ -7,6 +7,7 @@ import (
 	"encoding/binary"
 	"errors"
 	"fmt"
+	"math"
 )
 
 /*
@@ -41,6 +42,7 @@ var (
 	ErrChunkHeaderTooSmall       = errors.New("raw is too small for a SCTP chunk")
 	ErrChunkHeaderNotEnoughSpace = errors.New("not enough data left in SCTP packet to satisfy requested length")
 	ErrChunkHeaderPaddingNonZero = errors.New("chunk padding is non-zero at offset")
+	ErrChunkValueTooLong         = errors.New("chunk value does not fit the 16-bit chunk length")
 )
 
 func (c *chunkHeader) unmarshal(raw []byte) error {
@@ -85,6 +87,10 @@ func (c *chunkHeader) unmarshal(raw []byte) error {
 }
 
 func (c *chunkHeader) marshal() ([]byte, error) {
+	if len(c.raw)+chunkHeaderSize > math.MaxUint16 {
+		// the length field would wrap and the chunk decode to something else
+		return nil, fmt.Errorf("%w: %d bytes", ErrChunkValueTooLong, len(c.raw))
+	}
 	raw := make([]byte, 4+len(c.raw))
 
 	raw[0] = uint8(c.typ)
